@@ -63,7 +63,7 @@ PROP = "C20"
 RULE = ("cases = (operation getitem|vindex|blocks, shape, chunking, dtype, encoded index). Complete part: every "
         "slice(start, stop, step) with start/stop in [-n-1, n+1] u {None}, step in {+-1, +-2, +-3, None} on 1-d arrays of "
         "length n x ALL chunkings of the axis (quick n<=4, thorough n<=6 plus products of slices with steps -1, 2 on shape (3,2)). Random part: "
-        "1-4 d arrays with axis lengths 0-9 and random (irregular, size-1, single) chunkings; index tuples mixing ints, slices, "
+        "1-4 d arrays with axis lengths 0-9 and random (irregular, size-1, single; 7 % with a zero-size chunk inside an axis) chunkings; index tuples mixing ints, slices, "
         "None, Ellipsis, one 1-d integer or boolean indexer (list / NumPy / dask; sorted, unsorted, duplicate, negative, empty), "
         "0-d dask ints, full-shape masks; vindex with broadcasting index arrays; blocks[]. non-trivial = some axis split into "
         ">= 2 chunks; distinct = distinct (op, shape, chunks, dtype, index).")
@@ -116,6 +116,7 @@ PENDING = {
     "getitem:dask-index-array&zero-size-chunk:wrong-result": "x[:, dask_bool] with chunks ((1, 0), (6,)): computed shape differs",
     "getitem:full-shape-mask&zero-size-chunk:wrong-result": "same family",
     "getitem:full-shape-mask&zero-size-chunk:raises": "x[mask] with chunks ((1, 2, 0, 1), ...): cannot reshape array of size 2 into shape (1,)",
+    "vindex:int-list[dup,2d]+slice[|step|>1,start<0]&split-chunks:ValueError@local.py:start_state_from_dask": "rare (1 in 300 000, thorough): vindex with a 2-d point set on an array with zero-size chunks/axes: reshape leaves a Missing dependency",
     # vindex corner cases
     "vindex:int-array[0d]:TypeError@array/core.py:_vindex_array": "x.vindex[np.array(2)]: len() of a 0-d index array",
     "vindex:int-array[empty,2d]:ValueError@array/core.py:_vindex_array": "x.vindex[np.zeros((2, 0), int)]: max of an empty array",
